@@ -1233,10 +1233,12 @@ class SyncFlag:
         if self._tx_ctx is None:
             as_pyeval(setattr, self, "_tx_ctx", tx_ctx)
 
+            # either delay rules out same-context use, whichever of set/clear is converted first
+            assert (self._rx_delay == 0 and self._tx_delay == 0) or (
+                self._rx_ctx is not tx_ctx
+            ), "std.SyncFlag with delay cannot be set and cleared in the same context"
+
             if self._rx_delay != 0:
-                assert (
-                    self._rx_ctx is not tx_ctx
-                ), "std.SyncFlag with delay cannot be set and cleared in the same context"
                 at_end_of_context(self._impl_rx_delayline)
 
             # return True first time context is detected so
@@ -1256,10 +1258,12 @@ class SyncFlag:
         if self._rx_ctx is None:
             as_pyeval(setattr, self, "_rx_ctx", rx_ctx)
 
+            # either delay rules out same-context use, whichever of set/clear is converted first
+            assert (self._rx_delay == 0 and self._tx_delay == 0) or (
+                self._tx_ctx is not rx_ctx
+            ), "std.SyncFlag with delay cannot be set and cleared in the same context"
+
             if self._tx_delay != 0:
-                assert (
-                    self._tx_ctx is not rx_ctx
-                ), "std.SyncFlag with delay cannot be set and cleared in the same context"
                 at_end_of_context(self._impl_tx_delayline)
 
             # return True first time context is detected so
